@@ -6,7 +6,7 @@ from vf.core import call, exc_desc
 from vf.lazy import ck, libx, common, np
 
 PROP = "C20"
-TECHNIQUE = ('schedule control: every random draw of the generators is a recorded decision stream; each Markov step re-checked through the public API by prefix replay of the stream')
+TECHNIQUE = ('schedule control: every random draw of the generators is a recorded decision stream; each Markov step re-checked through the public API by prefix replay of the stream; numpy integers as sizes; long incomplete walks on 2-5 elements; decoy objects kept alive')
 RULE = ("grid n in 1..8, m in 1..5, steps in {0,1,2,3,5,10,50,200,1000}, both completeness options, four public generators; "
         "the library's random draws go through a scripted source, so every walk is a recorded decision stream "
         "(2 decisions per Markov step); EVERY SINGLE STEP is checked through the public API by prefix replay: for a "
